@@ -5,10 +5,13 @@ raw coordinate/payload lists of the tree actually built (and cross-checked again
 stated coordinate map of the transform is applied to that dict and compared with the content read from the raw
 lists of the result.  Round trips (swizzle . inverse swizzle, swap . swap, unflatten . flatten for tuple/pair,
 flatten(absolute|relative) . split) must restore the original content.  Every result must satisfy WF (C01's
-invariant) and, for tensors, RC (C02's invariant); a transform raising on a legal tree is a violation.
+invariant) and, for tensors, RC (C02's invariant) and containment of every stored coordinate in the shape the
+result itself declares as authoritative for that rank; a transform raising on a legal tree is a violation.
+Operands include trees in which one rank already carries tuple coordinates (the residue of an earlier tuple / pair
+flattening, built on the spec by the reference map): swizzle, swap, tuple / pair flatten + unflatten, absolute merge.
 
-Violation keys: `<Entry>.<method>[:style]:<clause>:<kind>` (clause = content / roundtrip / WF / RC / raised:<Exc>@<innermost
-library function>).  A violation whose *input* lies in one of a few recognised classes (TAG_* below: a stored but
+Violation keys: `<Entry>.<method>[:style]:<clause>:<kind>` (clause = content / roundtrip / WF:<kinds> / WF:coordinate-outside-declared-shape /
+RC / raised:<Exc>@<innermost library function>).  A violation whose *input* lies in one of a few recognised classes (TAG_* below: a stored but
 content-empty sub-tree at the transform's depth, a zero-length fiber strictly inside the merged ranks, a coordinate
 outside a stale estimated shape, ...) and whose failure site is one that class can explain is keyed
 `<transform family>:<class>:<failure kind>` instead, so that one mechanism is one key.
@@ -32,8 +35,14 @@ SPEC = {
              "unflattenRanksBelow), mergeRanks (absolute, relative; default merge_fn and sum/max/min/prod/count), "
              "split{Uniform,Equal,NonUniform,UnEqual} followed by flatten(absolute, or relative for relativeCoords), "
              "updateCoords (shift / affine / order-reversing, every depth) and updatePayloads (leaf depth) in place on a fiber "
-             "and through Tensor.update*(depth=d).  Systematic part: every (transform, depth, levels, style, entry point, "
-             "permutation) over a fixed family of 5 trees per depth; then random cases.  Non-trivial = the operand holds at "
+             "and through Tensor.update*(depth=d).  A quarter of the swizzle / swap / flatten(tuple, pair)+unflatten / "
+             "merge(absolute) cases take an operand in which one rank (any position) already carries tuple coordinates: flat "
+             "tuples or nested pairs of 2-3 combined integer ranks, rank id = list of the combined ids, shape authoritative "
+             "(tuple shaped) or estimated.  Systematic part: every (transform, depth, levels, style, entry point, "
+             "permutation) over a fixed family of 5 trees per depth, and every (swizzle permutation, swap, tuple/pair flatten, "
+             "absolute merge; depth, levels, entry point) over every position and nesting of one tuple-coordinate rank "
+             "(depth 2-3, 2 trees each); then random cases.  Every tensor result is also checked for containment of its stored "
+             "coordinates in the shape it declares authoritative.  Non-trivial = the operand holds at "
              "least 2 points, the transform returned a result that passed the oracle, and its image differs from the original "
              "content (merges: at least one real collision of points; split round trips and updatePayloads: at least 2 "
              "points); distinct = distinct case description."),
@@ -44,9 +53,12 @@ SPEC = {
                              "collisions_merged": 500, "dirty_inputs": 1000, "poked_inputs": 300,
                              "nonzero_default_inputs": 500, "empty_inputs": 300, "kind:swizzle": 300, "kind:swap": 200,
                              "kind:flatten": 500, "kind:merge": 300, "kind:splitflat": 200, "kind:updcoords": 150,
-                             "kind:updpay": 100},
+                             "kind:updpay": 100, "containment_checked": 1500, "tuple_rank_inputs": 500,
+                             "tuple_rank:swizzle": 100, "tuple_rank:swap": 60, "tuple_rank:flatten": 200,
+                             "tuple_rank:merge": 100},
                    "thorough": {"evaluations": 30000, "oracle_evals": 150000, "results_judged": 50000,
-                                "roundtrips_checked": 15000, "collisions_merged": 5000}},
+                                "roundtrips_checked": 15000, "collisions_merged": 5000, "containment_checked": 15000,
+                                "tuple_rank_inputs": 5000, "tuple_rank:swap": 500}},
     "assumptions": [
         "ordered/unique fibers with integer coordinates in the operand; coordinates (also those written through getPayloadRef) lie "
         "inside the shape when a shape is declared",
@@ -69,7 +81,22 @@ SPEC = {
         "injective and int -> int",
         "updatePayloads functions map the default to itself (whether stored defaults are visited is not part of the statement) and "
         "do not depend on the position argument; only the leaf depth is driven directly, interior depths through the *Below forms",
-        "not generated: transforms of already flattened (tuple-coordinate) ranks, U-format ranks, halo splits",
+        "operands with a tuple-coordinate rank: exactly one such rank, coordinates are flat tuples or right-nested pairs of "
+        "integers as flattenRanks('tuple' / 'pair') leaves them; only swizzle, swap, flatten('tuple' / 'pair') + unflatten "
+        "and merge('absolute') are driven on them ('linear' and 'relative' are arithmetic on integers; splits and update* of "
+        "tuple ranks are not generated), no getPayloadRef writes; unflatten after a 'tuple' flatten is judged only when every "
+        "combined rank but the last has integer coordinates (a flat tuple cannot tell a tuple coordinate from separate ones - "
+        "'pair' is always inverted); guard: a tensor-level swap of an integer rank with a tuple rank "
+        "at depth > 0 is not run when a content-empty sub-tree sits at that depth (left un-swapped -> TypeError in Rank.append)",
+        "containment (clause WF:coordinate-outside-declared-shape) is judged on tensor results, for every rank whose shape the "
+        "result itself flags as not estimated and whose stored coordinates are comparable with it (int / int, tuples "
+        "component-wise), read from the raw lists by depth; which shape is declared is otherwise C14's.  Not judged: "
+        "updateCoords without new_shape (the caller keeps the old shape); guards (observed behaviour that the statement does not pin down, see DESIGN 12.3): operands (also "
+        "intermediate ones of a round trip) whose *estimated* shape is stale - a stored coordinate outside it, after a "
+        "getPayloadRef write or for tuple coordinates whose estimate comes from the largest coordinate only - because "
+        "Tensor.fromFiber declares the copied estimate authoritative; swaps with a content-empty sub-tree at their depth "
+        "(left un-swapped); 'relative' merges of independent ranks (declared shape is the upper rank's)",
+        "not generated: U-format ranks, halo splits",
     ],
 }
 
@@ -144,6 +171,75 @@ def _tree(rng, D, default=0, dirty=0.0, p=0.7, positive=False, ext=None):
     vals = [v for v in vals if v != default]
     spec = gen.rand_tree_spec(rng, ext, p, dirty, default, vals)
     return spec, ext
+
+
+TUPLE_KINDS = ("swizzle", "swap", "flatten", "merge")      # transforms also driven on operands with a tuple-coordinate rank
+
+
+def _jlist(c):
+    return [_jlist(e) for e in c] if isinstance(c, tuple) else c
+
+
+def _flatten_spec(spec, d, l, style):
+    """Tree spec in which the ranks d .. d+l of `spec` are replaced by ONE rank whose coordinates are the `style`
+    (tuple / pair) combination of theirs - built on the spec by the reference map `_combine`, not by the library.
+    Zero-length fibers strictly inside the combined ranks disappear; everything below is kept verbatim."""
+    if d > 0:
+        return [[c, _flatten_spec(p, d - 1, l, style)] for c, p in spec]
+    out = []
+
+    def walk(f, cs):
+        for c, p in f:
+            if len(cs) == l:
+                out.append([_jlist(_combine(cs + [gen.tup(c)], style, None)), p])
+            else:
+                walk(p, cs + [gen.tup(c)])
+    walk(spec, [])
+    return out
+
+
+def _tuple_tree(rng, D, tr, tl, tstyle, default=0, dirty=0.0, p=0.7, positive=False):
+    """A tree of depth D whose rank `tr` already carries tuple coordinates (as left behind by an earlier tuple / pair
+    flattening of tl + 1 integer ranks).  Returns (spec, extents with the tuple rank's shape in list form, info)."""
+    ext = [rng.randint(2, 3 if D + tl > 3 else 4) for _ in range(D + tl)]
+    base, _ = _tree(rng, D + tl, default, dirty, p, positive, ext=ext)
+    spec = _flatten_spec(base, tr, tl, tstyle)
+    grp = tuple(ext[tr:tr + tl + 1])
+    ext_t = ext[:tr] + [_jlist(_combine(list(grp), tstyle, None))] + ext[tr + tl + 1:]
+    return spec, ext_t, {"tr": tr, "tl": tl, "tstyle": tstyle}
+
+
+def _tfamily(D):
+    """Fixed family of depth-D trees with one tuple-coordinate rank (every position, tuple and pair nesting)."""
+    r = random.Random(9100 + D)
+    fam = []
+    for tr in range(D):
+        for tstyle in ("tuple", "pair"):
+            for tl in ((1, 2) if D == 2 else (1,)):
+                for default, dirty, p, shaped in ((0, 0.0, 0.8, True), (7 if tr % 2 else 0, 0.5, 0.75, False)):
+                    spec, ext, info = _tuple_tree(r, D, tr, tl, tstyle, default, dirty, p)
+                    fam.append(dict(info, spec=spec, depth=D, default=default, shape=ext if shaped else None))
+    return fam
+
+
+def _systematic_tuple():
+    for D in (2, 3):
+        for ti, base in enumerate(_tfamily(D)):
+            for perm in itertools.permutations(range(D)):
+                yield dict(base, kind="swizzle", perm=list(perm))
+            for d in range(D - 1):
+                for mode in ("tensor", "fiber" if d == 0 else "below"):
+                    yield dict(base, kind="swap", d=d, mode=mode)
+            for d, l in _dl_choices(D):
+                for style in STYLES_FLAT[:2]:
+                    for mode in ("tensor", "fiber", "below"):
+                        if mode == "below" and d == 0:
+                            continue
+                        yield dict(base, kind="flatten", d=d, l=l, style=style, mode=mode)
+                for fn in (None, "max"):
+                    c = dict(base, kind="merge", d=d, l=l, style="absolute", fn=fn, mode=("tensor", "fiber")[(ti + d + l) % 2])
+                    if _merge_legal(c):
+                        yield c
 
 
 def _family(D):
@@ -228,12 +324,14 @@ def _merge_legal(c):
 
 def generate(rng, tier, shard, nshards, mon):
     idx = 0
-    for case in _systematic():
+    for case in itertools.chain(_systematic(), _systematic_tuple()):
         if idx % nshards == shard:
             case["sys"] = True
             yield case
         idx += 1
     mon.exhaustive["all (transform, depth, levels, style, entry point, permutation) over the fixed tree family"] = True
+    mon.exhaustive["all (swizzle, swap, tuple/pair flatten, absolute merge; depth, levels, entry point) x every position and "
+                   "nesting of one tuple-coordinate rank, depth 2-3"] = True
     nrand = (8000 if tier == "quick" else 400000) // nshards
     for _ in range(nrand):
         yield _random_case(rng)
@@ -247,12 +345,20 @@ def _random_case(rng):
     kind = rng.choice(["swizzle", "swizzle", "swap", "flatten", "flatten", "flatten", "merge", "merge", "splitflat",
                        "updcoords", "updpay"])
     positive = kind == "merge" and rng.random() < 0.4
-    spec, ext = _tree(rng, D, default, dirty, p, positive)
+    tinfo = None
+    if kind in TUPLE_KINDS and rng.random() < 0.25:
+        tl = rng.choice([1, 1, 2]) if D < 4 else 1
+        spec, ext, tinfo = _tuple_tree(rng, D, rng.randrange(D), tl, rng.choice(["tuple", "pair"]), default, dirty, p, positive)
+    else:
+        spec, ext = _tree(rng, D, default, dirty, p, positive)
     if rng.random() < 0.03:
         spec = []
     r = rng.random()
-    shape = ext if r < 0.55 else ([e + rng.randint(0, 2) for e in ext] if r < 0.7 else None)
-    case = {"kind": kind, "spec": spec, "depth": D, "default": default, "shape": shape}
+    if tinfo:
+        shape = ext if r < 0.6 else None
+    else:
+        shape = ext if r < 0.55 else ([e + rng.randint(0, 2) for e in ext] if r < 0.7 else None)
+    case = dict(tinfo or {}, kind=kind, spec=spec, depth=D, default=default, shape=shape)
     if kind == "swizzle":
         perm = list(range(D))
         rng.shuffle(perm)
@@ -262,12 +368,12 @@ def _random_case(rng):
         case.update(d=d, mode=rng.choice(["tensor", "fiber" if d == 0 else "below"]))
     elif kind == "flatten":
         d, l = rng.choice(_dl_choices(D))
-        style = rng.choice(STYLES_FLAT if shape is not None else STYLES_FLAT[:2])
+        style = rng.choice(STYLES_FLAT if shape is not None and not tinfo else STYLES_FLAT[:2])
         mode = rng.choice(["tensor", "fiber", "below"] if d > 0 else ["tensor", "fiber"])
         case.update(d=d, l=l, style=style, mode=mode)
     elif kind == "merge":
         d, l = rng.choice(_dl_choices(D))
-        case.update(d=d, l=l, style=rng.choice(STYLES_MERGE), mode=rng.choice(["tensor", "fiber"]),
+        case.update(d=d, l=l, style=rng.choice(STYLES_MERGE[:1] if tinfo else STYLES_MERGE), mode=rng.choice(["tensor", "fiber"]),
                     fn=rng.choice([None, None, "sum", "max", "min", "prod", "count"]))
         if not _merge_legal(case):
             case["fn"] = None
@@ -284,7 +390,7 @@ def _random_case(rng):
                     new_shape=rng.choice([None, 32]))
     else:
         case.update(fn=rng.choice(PFUNCS), mode=rng.choice(["tensor", "fiber"]))
-    if case.get("mode", "tensor") == "tensor" and rng.random() < 0.3:
+    if case.get("mode", "tensor") == "tensor" and not tinfo and rng.random() < 0.3:
         case["pokes"] = _pokes(rng, D, ext, shape, default)
         if kind == "merge" and not _merge_legal(case):
             del case["pokes"]
@@ -373,6 +479,7 @@ def _class_key(op, tags, kind):
 class _Ctx:
     def __init__(self, mon, case):
         self.mon, self.case, self.default = mon, case, case["default"]
+        self.note = ""              # appended to violation messages (operand class)
         self.no_containment = None  # reason why the result's declared shape is not judged against its stored coordinates
 
 
@@ -402,6 +509,7 @@ def _call(ctx, op, desc, fn, *a, tags=(), **k):
     except BaseException as e:      # noqa  (the library calls sys.exit() on some paths)
         if isinstance(e, KeyboardInterrupt):
             raise
+        desc += ctx.note
         site = _lib_frame(e)
         use = [t for t in tags if t not in TAG_SITES or site in TAG_SITES[t]]
         key = _class_key(op, use, "raised") if use else _key([op, "raised", f"{type(e).__name__}@{site}"])
@@ -449,6 +557,7 @@ def _judge(ctx, op, desc, res, expected, clause="content", style=None, tags=(), 
     `tags` qualify WF/RC keys (and the content key of a malformed result), `ctags` the content key;
     `alt` = (name, content map) of a recognised wrong model."""
     mon, default = ctx.mon, ctx.default
+    desc += ctx.note
     ok = True
     mon.count("results_judged")
     if not isinstance(res, (Tensor, Fiber)):
@@ -518,14 +627,27 @@ def _judge(ctx, op, desc, res, expected, clause="content", style=None, tags=(), 
 # ------------------------------------------------------------------------------------------
 # operands
 # ------------------------------------------------------------------------------------------
+def _rank_ids(case):
+    """Rank ids of the operand; a tuple-coordinate rank is named like a flattened rank (the list of the ids it combines)."""
+    D, tr = case["depth"], case.get("tr")
+    if tr is None:
+        return gen.rank_ids_for(D)
+    tl = case["tl"]
+    base = gen.rank_ids_for(D + tl)
+    grp = base[tr:tr + tl + 1]
+    return base[:tr] + [grp] + base[tr + tl + 1:]
+
+
+def _shape(case):
+    return None if case["shape"] is None else [gen.tup(e) for e in case["shape"]]
+
+
 def _build_tensor(case):
-    D = case["depth"]
-    t = gen.tensor_from_spec(case["spec"], gen.rank_ids_for(D), shape=case["shape"], default=case["default"])
-    return t
+    return gen.tensor_from_spec(case["spec"], _rank_ids(case), shape=_shape(case), default=case["default"])
 
 
 def _build_fiber(case, need_shape=False):
-    shape = case["shape"]
+    shape = _shape(case)
     if shape is None and need_shape:
         shape = [16] * case["depth"]
     return gen.fiber_from_spec(case["spec"], default=case["default"], shape=shape)
@@ -555,9 +677,13 @@ def _operand(ctx, mode, need_shape=False):
     if isinstance(x, Tensor) and _outside_declared_shape(x)[0]:
         ctx.no_containment = "operand-outside-its-declared-shape"       # not generated (assumption 1)
     elif _stale_tag(x):
-        # TEMPORARY guard pending decision: a *Below-style transform (e.g. Tensor.swapRanks(depth>0)) of a tensor whose
+        # guard (decided: observed, not claimed - DESIGN 12.3): a *Below-style transform (e.g. Tensor.swapRanks(depth>0)) of a tensor whose
         # estimated shape is stale declares that stale estimate as authoritative on the ranks it does not touch
         ctx.no_containment = TAG_STALE
+    if case.get("tr") is not None:
+        ctx.mon.count("tuple_rank_inputs")
+        ctx.mon.count(f"tuple_rank:{case['kind']}")
+        ctx.note = f" [operand: rank {case['tr']} carries {case['tstyle']} coordinates of {case['tl'] + 1} combined ranks]"
     if stored != gen.canonical_spec(stored, default):
         ctx.mon.count("dirty_inputs")
     if not c0:
@@ -601,7 +727,18 @@ def _stale_tag(t):
             for f in rk.getFibers():
                 if f.coords and isinstance(f.coords[-1], int) and f.coords[-1] >= sh:
                     return (TAG_STALE,)
+        elif isinstance(sh, tuple):
+            # the estimate for tuple coordinates is taken from the (lexicographically) largest coordinate only
+            for f in rk.getFibers():
+                if any(_inside(c, sh) is False for c in f.coords):
+                    return (TAG_STALE,)
     return ()
+
+
+def _next_operand(ctx, r):
+    """A result that becomes the operand of the inverse transform: same input classes as for the first operand."""
+    if ctx.no_containment is None and isinstance(r, Tensor) and _stale_tag(r):
+        ctx.no_containment = TAG_STALE      # guard (decided: observed, not claimed - DESIGN 12.3) (see _operand)
 
 
 def run_case(case, mon):
@@ -631,6 +768,7 @@ def _run_swizzle(ctx):
     exp = _img_perm(c0, perm)
     good = _judge(ctx, op, desc, r, exp)
     mon.state(("swizzle", len(perm), perm, sorted(map(str, exp))[:6]))
+    _next_operand(ctx, r)
     ok, b = _call(ctx, op + ":inverse", desc + " then back", r.swizzleRanks, list(ids), tags=_stale_tag(r))
     if ok:
         mon.count("roundtrips_checked")
@@ -646,8 +784,14 @@ def _run_swap(ctx):
     perm[d], perm[d + 1] = perm[d + 1], perm[d]
     if mode == "tensor":
         t, c0, stored = _operand(ctx, "tensor")
+        if case.get("tr") in (d, d + 1) and d > 0 and any(not gen.content_of_spec(f, ctx.default)
+                                                          for f in _fibers_at(stored, d)):
+            # guard (decided: observed, not claimed - DESIGN 12.3) (same mechanism as below): when the two ranks differ in coordinate type the
+            # un-swapped sub-tree makes Tensor.fromFiber compare an integer with a tuple (TypeError in Rank.append)
+            mon.count("guard_skipped")
+            return False, len(c0)
         if any(not gen.content_of_spec(f, ctx.default) for f in _fibers_at(stored, d)):
-            # TEMPORARY guard pending decision: a swap leaves a content-empty sub-tree at its depth (a zero-length fiber
+            # guard (decided: observed, not claimed - DESIGN 12.3): a swap leaves a content-empty sub-tree at its depth (a zero-length fiber
             # included) as it is - content is unaffected, but its explicit defaults / empty fibers / shape attributes
             # keep the old rank order in the result
             ctx.no_containment = ctx.no_containment or "swap-leaves-content-empty-subtree-unswapped"
@@ -657,6 +801,7 @@ def _run_swap(ctx):
         if not ok:
             return False, len(c0)
         good = _judge(ctx, op, desc, r, exp)
+        _next_operand(ctx, r)
         ok, b = _call(ctx, op + ":twice", desc + " twice", r.swapRanks, depth=d)
     elif mode == "fiber":
         f, c0, stored = _operand(ctx, "fiber")
@@ -714,10 +859,15 @@ def _run_flatten(ctx):
     ctags = _inner_tag(stored, d, l) if ctx.default != 0 else ()
     good = _judge(ctx, op, desc, r, exp, style=style, tags=tags, ctags=ctags)
     mon.state(("flatten", D, d, l, style, mode, sorted(map(str, exp))[:6]))
-    if style in ("tuple", "pair") and good:
+    tr = case.get("tr")
+    if style == "tuple" and tr is not None and d <= tr < d + l:
+        # a flat tuple cannot tell a tuple coordinate of an upper combined rank from separate coordinates: not invertible
+        mon.count("tuple_unflatten_not_invertible_skipped")
+    elif style in ("tuple", "pair") and good:
         if mode == "tensor":
             uop, udesc = "Tensor.unflattenRanks", f"Tensor.unflattenRanks(depth={d}, levels={l}, style={style!r}) of the flattened tensor"
             utags = ()
+            _next_operand(ctx, r)
             if not exp and case["shape"] is None:
                 utags = (TAG_EMPTY_EST,)
             ok, u = _call(ctx, uop, udesc, r.unflattenRanks, depth=d, levels=l, style=style, tags=utags)
@@ -762,7 +912,7 @@ def _run_merge(ctx):
     d, l, style, mode, D, fn = case["d"], case["l"], case["style"], case["mode"], case["depth"], case["fn"]
     x, c0, stored = _operand(ctx, mode)
     if style == "relative":
-        # TEMPORARY guard pending decision: a `relative` merge of independent ranks declares the shape of the upper rank
+        # guard (decided: observed, not claimed - DESIGN 12.3): a `relative` merge of independent ranks declares the shape of the upper rank
         # (documented: [S0 .. SN] -> S0) although the summed coordinates reach S0 + .. + SN - N - 1
         ctx.no_containment = "relative-merge-of-independent-ranks"
     groups = _img_flatten(c0, d, l, style, None)
